@@ -136,6 +136,12 @@ class SByteArray:
         else:
             if not is_sym(x) and not 0 <= x <= 255:
                 raise ValueError("byte must be in range(0, 256)")
+            if isinstance(x, (SLin, SInt)):
+                xs = SInt.lift(x)
+                if xs.width() > 8 and bool(xs > 255):  # forks: the real bytearray rejects the value
+                    raise ValueError("byte must be in range(0, 256)")
+                if isinstance(xs, SInt):
+                    x = SInt(xs.bits[:8]).n()
             self.v[i] = x
 
     def __iter__(self):
@@ -152,6 +158,12 @@ class SByteArray:
 
     def __eq__(self, o):
         return SBytes(self.v).n() == (SBytes(o.v).n() if isinstance(o, SByteArray) else o)
+
+    def hex(self, *a):
+        return "<symbolic-bytes>"
+
+    def __repr__(self):
+        return "SByteArray<%d>" % len(self.v)
 
 
 _TYPEMAP = {}
